@@ -12,17 +12,23 @@ from .frontends import c2s, s2c
 from .pool import pmap
 
 TITLES = [("a", 1), ("a", 2), ("a-1", 1), ("b", 2), ("A b", 3), ("É x", 2), ("a\nb", 1)]     # (a\nb: a setext heading over two lines)
-TARGETS = [("x", "next"), ("a", "next"), ("Tt", "next"), ("w", "quote")]
+# target forms: "next" = (name)= before whatever follows, "quote" = before a block quote holding a titled admonition,
+# "attr" = an attribute id on a paragraph ({#name}), "dirname" = the :name: option of a titled directive
+TARGETS = [("x", "next"), ("a", "next"), ("Tt", "next"), ("w", "quote"), ("an", "attr"), ("dn", "dirname")]
 LINKS = ([(n, "text") for n in ("a", "a-1", "a-2", "a-1-1", "b", "a-b", "x", "zz", "A", "X", "tt", "Tt", "é-x", "w", "ab")]
-         + [(n, "empty") for n in ("a", "x", "zz", "b", "Tt", "a-1", "w", "é-x")]
+         + [(n, "text") for n in ("an", "dn", "DN")]
+         + [(n, "empty") for n in ("a", "x", "zz", "b", "Tt", "a-1", "w", "é-x", "an", "dn")]
          + [(n, "auto") for n in ("a", "x", "é-x", "zz", "w")])
 
 
 REV_LINKS = [(n, f) for n in ("a", "1-a", "b", "b A", "B a", "x", "zz") for f in ("text", "empty")]
 
 
-def vocab():
-    return [["h", s2c(t), lv] for t, lv in TITLES] + [["t", s2c(n), f] for n, f in TARGETS]
+def vocab(focus="C09"):
+    """C09 (link resolution) needs every target form; C10 (the anchors themselves) the titles and two plain targets"""
+    targets = TARGETS if focus == "C09" else TARGETS[:2]
+    titles = TITLES if focus == "C10" else [t for t in TITLES if t[0] != "a\nb"]
+    return [["h", s2c(t), lv] for t, lv in titles] + [["t", s2c(n), f] for n, f in targets]
 
 
 def consts(maxitems, depths, slugfn="default", dev_suffix=False, dev_case=False, dev_nostrip=False):
@@ -51,6 +57,10 @@ def doc_text(items, links, wrap="none"):
                 lines += it[1].split("\n") + ["===" if it[2] == 1 else "---", ""]        # setext: the title spans source lines
             else:
                 lines += ["#" * it[2] + " " + it[1], ""]
+        elif len(it) > 2 and it[2] == "attr":
+            lines += ["{#%s}" % it[1], f"P{n + 1}", ""]
+        elif len(it) > 2 and it[2] == "dirname":
+            lines += ["```{admonition} Dt%d *em*" % (n + 1), f":name: {it[1]}", f"B{n + 1}", "```", ""]
         else:
             lines.append(f"({it[1]})=")
             if len(it) > 2 and it[2] == "quote":
@@ -112,6 +122,10 @@ def observe(text, depth, items, links, slug_func=None):
     for n, it in enumerate(items, 1):
         if it[0] == "t":
             tnames[nodes.fully_normalize_name(it[1])] = n
+            if len(it) > 2 and it[2] == "dirname":
+                for adm in doc.findall(nodes.Admonition):
+                    if nodes.fully_normalize_name(it[1]) in adm.get("names", []) and len(adm) and isinstance(adm[0], nodes.title):
+                        sec_titles[n] = adm[0].astext()
     refs = [r for r in doc.findall(nodes.reference) if r.get("id_link")]
     if len(refs) != len(links):
         problems.append(f"{len(refs)} '#'-links in the doctree for {len(links)} written")
@@ -216,15 +230,15 @@ def _raising_index(title):
 _RAISING = [_raising, _raising_key, _raising_runtime, _raising_custom, _raising_index]
 
 
-def t_leg(ctx, quick):
+def t_leg(ctx, quick, focus="C09"):
     """T: M |= S for the enumerated documents; Dev regressions; returns exported behaviours"""
     recs = []
     mi = 3 if quick else 4
     r = tlc.run("Anchors", tlc.cfg(ctx, "an_mc.cfg", consts(mi, [0, 1, 2, 7]), invariants=INVS + ["Emit"],
                                    properties=["Terminates"], constraints=["NoDupTargets"]),
-                wd=ctx.wd, timeout=3000, defs=defs())
+                wd=ctx.wd, timeout=3000, defs=defs(voc=vocab(focus)))
     tlc.expect_holds(r, "Anchors M |= S")
-    ctx.add_tlc("Anchors_mc", r, f"documents <= {mi} items over {len(vocab())} items x depths 0,1,2,7 x {len(LINKS)} links")
+    ctx.add_tlc("Anchors_mc", r, f"documents <= {mi} items over {len(vocab(focus))} items x depths 0,1,2,7 x {len(LINKS)} links")
     for rec in r.records:
         rec["slug_func"] = "default"
     recs += r.records
